@@ -6,8 +6,10 @@ IrisVerif/Lemmas/{GridCodec,DataboxFrame}.lean).
 import IrisVerif.Model.Grid
 import IrisVerif.Model.Dataslate
 import IrisVerif.Lemmas.DataboxFrame
+import IrisVerif.Lemmas.DataboxOps
 import IrisVerif.Lemmas.GridCodec
 import IrisVerif.Lemmas.GridRoundTrip
+import IrisVerif.Lemmas.GridSelection
 import IrisVerif.Lemmas.SlateCompose
 
 namespace IrisVerif.C19
@@ -194,6 +196,124 @@ theorem csv_roundtrip_mem (c : Codec V) (hc : CodecLaw c) (d : Bool) (db : Box (
   · rintro ⟨p, hp, rfl⟩
     exact ⟨p, ⟨p.2.freq, hwf.freq p hp, List.mem_filter.mpr ⟨hp, by simp⟩⟩, rfl⟩
 
+
+/-! #### explicit selections of frequencies and periods (`span=`, `frequency_span=`) -/
+
+
+/-- a databox whose series the CSV format can carry (no assumption on trimming, starts or lengths) -/
+structure ExportableDatabox (db : Box (Ser V) V) : Prop where
+  distinct : (keys (seriesOf db)).Nodup
+  names : GoodNames (seriesOf db)
+  rows : ∀ p ∈ seriesOf db, ∀ r ∈ p.2.rows, r.length = p.2.nv
+
+/-- a frequency-span selection (`span=`, `frequency_span=`; `names=` is `shallow` applied first) the format can carry: distinct
+frequencies (it is a dict), dated blocks with at least one period, no periods for the block of the empty series, and at least
+one data row when anything is written -/
+structure SelectionOK (fs : FSpan) (db : Box (Ser V) V) : Prop where
+  keysNodup : (fs.map (·.1)).Nodup
+  blocks : ∀ b ∈ exportBlocksWith fs (seriesOf db),
+    (b.freq = .U ∧ b.periods = []) ∨ (b.freq ≠ .U ∧ b.freq ≠ .W ∧ b.periods ≠ [])
+  hasRow : exportBlocksWith fs (seriesOf db) = [] ∨ ∃ b ∈ exportBlocksWith fs (seriesOf db), b.periods ≠ []
+
+theorem fit_exportBlocksWith (fs : FSpan) (ss : List (String × Ser V)) :
+    ∀ b ∈ exportBlocksWith fs ss, b.periods.length ≤ totalRowsWith fs ss := by
+  intro b hb
+  unfold exportBlocksWith at hb
+  obtain ⟨e, he, hbe⟩ := List.mem_filterMap.mp hb
+  dsimp only at hbe
+  by_cases hm : (withFreq ss e.1).isEmpty = true
+  · simp [hm] at hbe
+  · simp only [hm, Bool.false_eq_true, if_false, Option.some.injEq] at hbe
+    subst hbe
+    apply le_maxLen
+    simp only [totalRowsWith, List.mem_map]
+    refine ⟨e, he, ?_⟩
+    cases he2 : e.2 with
+    | none => simp [hm]
+    | some ps => simp
+
+/-- **CSV export of a selection and re-import.** For every exportable databox and every admissible selection of frequencies and
+periods -- in any order, with any step, with repetitions, inside or outside the data -- importing the exported grid returns, for
+every series of a selected frequency, `set_data` of the series' own rows at the written periods (each row placed at its period,
+NaN elsewhere, then trimmed); nothing else comes back. -/
+theorem csv_selection_roundtrip (c : Codec V) (hc : CodecLaw c) (d : Bool) (fs : FSpan) (db : Box (Ser V) V)
+    (hdb : ExportableDatabox db) (hsel : SelectionOK fs db) :
+    importGrid c d (exportGridWith c d fs db)
+      = .ok ((exportBlocksWith fs (seriesOf db)).flatMap (fun b => b.members.map (reimport (descOf d) b))) := by
+  unfold exportGridWith
+  by_cases hB : (exportBlocksWith fs (seriesOf db)).isEmpty = true
+  · simp only [hB, if_true]
+    rw [List.isEmpty_iff.mp hB]
+    rfl
+  · simp only [hB, Bool.false_eq_true, if_false]
+    have hfit := fit_exportBlocksWith fs (seriesOf db)
+    have hg : ∀ x ∈ exportBlocksWith fs (seriesOf db), GoodBlockG x ∧ x.periods.length ≤ totalRowsWith fs (seriesOf db) := by
+      intro x hx
+      refine ⟨⟨goodNames_exportBlocksWith fs _ hdb.names x hx, ?_, hsel.blocks x hx⟩, hfit x hx⟩
+      intro p hp
+      have hx' := hx
+      unfold exportBlocksWith at hx'
+      obtain ⟨e, _, hxe⟩ := List.mem_filterMap.mp hx'
+      dsimp only at hxe
+      split at hxe
+      · simp at hxe
+      · simp only [Option.some.injEq] at hxe
+        subst hxe
+        exact hdb.rows p (List.mem_filter.mp hp).1
+    have hT : 1 ≤ totalRowsWith fs (seriesOf db) := by
+      rcases hsel.hasRow with h0 | ⟨b, hb, hne⟩
+      · rw [h0] at hB; simp at hB
+      · have := hfit b hb
+        have : 0 < b.periods.length := List.length_pos_iff.mpr hne
+        omega
+    have hnd : (keys ((exportBlocksWith fs (seriesOf db)).flatMap (·.members))).Nodup := by
+      rw [members_exportBlocksWith]
+      have : fs.flatMap (fun e => withFreq (seriesOf db) e.1) = (fs.map (·.1)).flatMap (withFreq (seriesOf db)) := by
+        rw [List.flatMap_map]
+      rw [this]
+      exact keys_grouped_nodup _ hdb.distinct _ hsel.keysNodup
+    exact import_of_blocks_gen c hc d _ hT _ hg hnd
+
+/-- **… for an ascending run of consecutive periods** `lo … hi` the series that comes back is the restriction of the original to
+`lo … hi`, trimmed (a true round trip after trim) -/
+theorem reimport_consecutive (dh : String × Ser V → String) (b : Block V) (p : String × Ser V) (lo hi : Int) (h : lo ≤ hi)
+    (hf : b.freq ≠ .U) (hper : b.periods = periodsOf lo hi) :
+    (reimport dh b p).2 = Ser.trim ⟨b.freq, lo, p.2.nv, (periodsOf lo hi).map p.2.rowAt, dh p⟩ := by
+  simp only [reimport, hf, if_false, hper]
+  exact setData_consecutive _ _ _ lo hi h _ (by simp [periodsOf])
+
+
+/-- **… and for any list of distinct periods** (stepped, descending, hand-picked): what comes back is the trimmed form of a series
+that has, at every written period, the original series' own row of that period, and NaN rows at every other period -/
+theorem csv_selection_cells (dh : String × Ser V → String) (b : Block V) (p : String × Ser V) (p0 : Int) (ps : List Int)
+    (hper : b.periods = p0 :: ps) (hf : b.freq ≠ .U) (hnd : (p0 :: ps).Nodup) :
+    (reimport dh b p).2 = (setDataRaw b.freq p.2.nv (dh p) p0 ps ((p0 :: ps).map p.2.rowAt)).trim
+      ∧ (∀ t ∈ p0 :: ps, (setDataRaw b.freq p.2.nv (dh p) p0 ps ((p0 :: ps).map p.2.rowAt)).rowAt t = p.2.rowAt t)
+      ∧ (∀ t, t ∉ p0 :: ps →
+          (setDataRaw b.freq p.2.nv (dh p) p0 ps ((p0 :: ps).map p.2.rowAt)).rowAt t = nanRow p.2.nv) := by
+  have h := setDataRaw_rowAt b.freq p.2.nv (dh p) p0 ps ((p0 :: ps).map p.2.rowAt) hnd
+  refine ⟨by simp only [reimport, hf, if_false, hper]; rfl, ?_, h.2⟩
+  intro t ht
+  obtain ⟨i, hi⟩ := List.getElem?_of_mem ht
+  exact h.1 i t _ hi (by rw [List.getElem?_map, hi]; rfl)
+
+/-- the hypotheses of `csv_selection_roundtrip` are met by a descending, stepped selection on a two-series databox -/
+example : ExportableDatabox (V := Nat) [("a", .ser ⟨.Q, 8080, 1, [[some 1], [none], [some 3]], ""⟩), ("k", .scalar none)]
+    ∧ SelectionOK (V := Nat) [(.Q, some [8082, 8080, 8077])] [("a", .ser ⟨.Q, 8080, 1, [[some 1], [none], [some 3]], ""⟩), ("k", .scalar none)] := by
+  refine ⟨⟨by decide, ?_, ?_⟩, ⟨by decide, ?_, ?_⟩⟩
+  · intro p hp
+    simp only [seriesOf, List.filterMap_cons, List.filterMap_nil, List.mem_cons, List.mem_nil_iff, or_false] at hp
+    subst hp; decide
+  · intro p hp
+    simp only [seriesOf, List.filterMap_cons, List.filterMap_nil, List.mem_cons, List.mem_nil_iff, or_false] at hp
+    subst hp; decide
+  · intro b hb
+    simp [exportBlocksWith, seriesOf, withFreq] at hb
+    subst hb
+    exact Or.inr ⟨by decide, by decide, by simp⟩
+  · right
+    exact ⟨⟨.Q, [8082, 8080, 8077], withFreq (seriesOf [("a", .ser ⟨.Q, 8080, 1, [[some 1], [none], [some 3]], ""⟩), ("k", .scalar none)]) .Q⟩,
+      by simp [exportBlocksWith, seriesOf, withFreq], by simp⟩
 
 /-! non-vacuity: a codec satisfying `CodecLaw` (periods in unary, cells as non-empty tokens) and a well-formed databox
 (two frequencies, different starts and lengths, two variants, NaNs inside, an empty series, a scalar) -/
@@ -490,6 +610,48 @@ example : (Slate.removeFromStart
     2).basePeriods = [8078, 8079, 8081] := by
   decide
 
+
+/-- **`to_databox(trim=True)`** is `to_databox(trim=False)` with `Series.trim()` applied to every series -/
+theorem slate_output_trimmed (sl : Slate V) :
+    toDatabox sl true = (toDatabox sl false).map (fun l => l.map (fun p => (p.1, p.2.trim))) := toDatabox_trim sl
+
+/-- **`to_databox(span="base")`** is the full-span output restricted to the columns from the first to the last base column
+(start moved accordingly) -/
+theorem slate_output_base (sl : Slate V) (b0 b1 : Nat) (h0 : sl.baseCols.head? = some b0) (h1 : sl.baseCols.getLast? = some b1)
+    (hle : b0 ≤ b1) (hlt : b1 < sl.len) :
+    toDataboxBase sl false = (toDatabox sl false).map (fun l => l.map (fun p => (p.1, restrictSer b0 b1 p.2))) :=
+  toDataboxBase_restrict sl b0 b1 h0 h1 hle hlt
+
+/-- **any sequence of `remove_periods_from_start / _from_end`, `add_periods_to_end`**: the cell of a period is the converted
+value as long as no operation of the sequence removed that period, NaN otherwise (induction over the sequence) -/
+theorem slate_ops_cells (sl : Slate V) (ops : List SlateOp) (v k : Nat) (hw : sl.hasRecord v k) (t : Int) :
+    (applySlateOps sl ops).cellAt v k t = if aliveAfter sl ops t then sl.cellAt v k t else none :=
+  cellAt_applySlateOps sl ops v k hw t
+
+/-- … and the base periods after the sequence are the declared base periods that no operation removed -/
+theorem slate_ops_basePeriods (sl : Slate V) (ops : List SlateOp) :
+    (applySlateOps sl ops).basePeriods = sl.basePeriods.filter (fun p => aliveAfter sl ops p) := by
+  induction ops generalizing sl with
+  | nil => exact (List.filter_eq_self.mpr (fun _ _ => rfl)).symm
+  | cons op rest ih =>
+    simp only [applySlateOps, aliveAfter]
+    rw [ih (op.apply sl)]
+    cases op with
+    | removeStart n =>
+      simp only [SlateOp.apply, SlateOp.keeps]
+      rw [removeFromStart_basePeriods, List.filter_filter]
+      apply List.filter_congr; intro p _; simp [Bool.and_comm]
+    | removeEnd n =>
+      simp only [SlateOp.apply, SlateOp.keeps]
+      rw [removeFromEnd_basePeriods, List.filter_filter]
+      apply List.filter_congr; intro p _; simp [Bool.and_comm]
+    | addEnd n =>
+      simp only [SlateOp.apply, SlateOp.keeps, Bool.true_and]
+      rfl
+
+example : (applySlateOps (Slate.mk ["a"] BFreq.Q 8076 6 [2, 3] [[[some 1, some 2, some 3, some 4, some 5, some (6 : Nat)]]] (-2) 1)
+    [.removeStart 2, .removeEnd 1, .addEnd 2]).cellAt 0 0 8079 = some 4 := by decide
+
 end Slate
 
 /-! ### Databox operations: the frame condition -/
@@ -559,6 +721,87 @@ example : applyOps (V := Nat) ⟨fun _ => BFreq.Q, fun a b => a + b, fun a b => 
     [("a", .ser 1), ("b", .ser 2), ("c", .scalar (some 3))]
     [.rename (.names ["a"]) (.names ["z"]) false, .overlay [("z", .ser 10), ("c", .ser 5)] none false]
       = .ok [("b", .ser 2), ("c", .scalar (some 3)), ("z", .ser 11)] := by decide
+
+
+/-! ### Databox operations: what the selected names become -/
+
+/-- **overlay**: a name the call applies to (a series in both databoxes, of the same known frequency) is bound to
+`Series.overlay` of the two series; every other binding is as before (`lay_lookup`, `applyOp_frame`) -/
+theorem overlay_applied (o : SOps S) (db other db' : Box S V) (names : Option (List String)) (strict : Bool)
+    (h : overlay o db other names strict = .ok db') (n : String) (hn : n ∈ layNames db other names strict)
+    (ha : layAct o db other n = .apply) :
+    ∃ s t, lookup db n = some (.ser s) ∧ lookup other n = some (.ser t) ∧ lookup db' n = some (.ser (o.overlay s t)) :=
+  lay_applied o o.overlay db other db' names strict h n hn ha
+
+theorem underlay_applied (o : SOps S) (db other db' : Box S V) (names : Option (List String)) (strict : Bool)
+    (h : underlay o db other names strict = .ok db') (n : String) (hn : n ∈ layNames db other names strict)
+    (ha : layAct o db other n = .apply) :
+    ∃ s t, lookup db n = some (.ser s) ∧ lookup other n = some (.ser t) ∧ lookup db' n = some (.ser (o.underlay s t)) :=
+  lay_applied o o.underlay db other db' names strict h n hn ha
+
+/-- **prepend**: the series is underlaid with the other databox's series clipped at the given end -/
+theorem prepend_applied (o : SOps S) (db other db' : Box S V) (f : BFreq) (stop : Int)
+    (h : prepend o db other f stop = .ok db') (n : String)
+    (hn : n ∈ layNames db (clip o other f none (some stop)) none false)
+    (ha : layAct o db (clip o other f none (some stop)) n = .apply) :
+    ∃ s t, lookup db n = some (.ser s)
+      ∧ (lookup other n).map (clipItem o f none (some stop)) = some (.ser t)
+      ∧ lookup db' n = some (.ser (o.underlay s t)) := by
+  obtain ⟨s, t, h1, h2, h3⟩ := lay_applied o o.underlay db _ db' none false h n hn ha
+  rw [clip_lookup o other f none (some stop) (Or.inr (by simp)) n] at h2
+  exact ⟨s, t, h1, h2, h3⟩
+
+/-- **every name after overlay / underlay / prepend**, selected or not -/
+theorem lay_every_name (o : SOps S) (f : S → S → S) (db other db' : Box S V) (names : Option (List String)) (strict : Bool)
+    (h : lay o f db other names strict = .ok db') (n : String) :
+    lookup db' n = (lookup db n).map (layItem o f db other (layNames db other names strict) n) :=
+  lay_lookup o f db other db' names strict h n
+
+/-- **clip**: every series of the frequency of the given period(s) is `Series.clip`ped, every other item is as it was -/
+theorem clip_every_name (o : SOps S) (db : Box S V) (f : BFreq) (lo hi : Option Int) (hne : lo ≠ none ∨ hi ≠ none) (n : String) :
+    lookup (clip o db f lo hi) n = (lookup db n).map (clipItem o f lo hi) :=
+  clip_lookup o db f lo hi hne n
+
+/-- **keep**: the selected names keep their bindings, every other name is gone (order: `applyOp_frame`) -/
+theorem keep_every_name (db : Box S V) (sel : Sel) (strict : Bool) (n : String) :
+    lookup (keep db (some sel) strict) n
+      = if (resolveSources (keys db) sel strict).contains n then lookup db n else none :=
+  keep_lookup db sel strict n
+
+/-- **remove**: distinct existing names are deleted and nothing else happens (a missing or repeated name is the KeyError
+branch of the model) -/
+theorem remove_selected (db : Box S V) (sel : Sel) (strict : Bool)
+    (hnd : (resolveSources (keys db) sel strict).Nodup) (hin : ∀ n ∈ resolveSources (keys db) sel strict, n ∈ keys db) :
+    remove db (some sel) strict = .ok (db.filter (fun p => !(resolveSources (keys db) sel strict).contains p.1)) :=
+  removeNames_eq db _ hnd hin
+
+/-- **rename**: distinct existing sources to distinct fresh targets -- the sources disappear, each target is bound to the value
+of its source (appended in the order of the pairs), every other entry stays where it is.  Targets that collide with existing
+names or with each other are executed strictly in sequence by the code (modelled; see notes/C19.md). -/
+theorem rename_fresh (db : Box S V) (src : Sel) (tgt : Tgt) (strict : Bool)
+    (hs : ((resolvePairs (keys db) src tgt strict).map (·.1)).Nodup)
+    (hin : ∀ p ∈ resolvePairs (keys db) src tgt strict, p.1 ∈ keys db)
+    (ht : ((resolvePairs (keys db) src tgt strict).map (·.2)).Nodup)
+    (hfresh : ∀ p ∈ resolvePairs (keys db) src tgt strict, p.2 ∉ keys db) :
+    rename db src tgt strict = .ok (db.filter (fun q => !((resolvePairs (keys db) src tgt strict).map (·.1)).contains q.1)
+      ++ (resolvePairs (keys db) src tgt strict).filterMap (fun st => (lookup db st.1).map (fun v => (st.2, v)))) :=
+  renamePairs_fresh db _ hs hin ht hfresh
+
+/-- **lifting to sequences**: in any sequence of operations, a name is finally bound to what the last operation that selects it
+made of it -- if the operations after `op` do not select `n`, the final binding of `n` is its binding right after `op` (which
+the theorems above give per kind of operation) -/
+theorem applyOps_value_after_last_touch (o : SOps S) (pre post : List (Op S V)) (op : Op S V) (db d1 d2 d3 : Box S V)
+    (h1 : applyOps o db pre = .ok d1) (h2 : applyOp o d1 op = .ok d2) (h3 : applyOps o d2 post = .ok d3)
+    (n : String) (hn : n ∉ touchedSeq o d2 post) :
+    applyOps o db (pre ++ op :: post) = .ok d3 ∧ lookup d3 n = lookup d2 n := by
+  constructor
+  · rw [applyOps_append, h1]
+    simp only [bind, Except.bind, applyOps, h2, h3]
+  · exact applyOps_lookup o post d2 d3 h3 n hn
+
+example : rename (S := Nat) (V := Nat) [("a", .ser 1), ("b", .ser 2), ("c", .scalar (some 3))]
+    (.names ["a", "zz", "c"]) (.func (fun n => n ++ "_1")) false
+      = .ok [("b", .ser 2), ("a_1", .ser 1), ("c_1", .scalar (some 3))] := by decide
 
 end Frame
 
